@@ -1246,8 +1246,19 @@ impl Bmi2StringProcessor {
     }
 
     fn hash_string_scalar(&self, input: &[u8], mut hash: u64) -> u64 {
-        for &byte in input {
-            hash = hash.rotate_left(5).wrapping_add(byte as u64);
+        // Portable definition of the hash: must produce exactly what the BMI2 path
+        // produces (8-byte little-endian words mixed with bits 13..32, then single bytes).
+        for chunk in input.chunks(8) {
+            if chunk.len() == 8 {
+                let mut word = [0u8; 8];
+                word.copy_from_slice(chunk);
+                hash = hash.rotate_left(5).wrapping_add(u64::from_le_bytes(word));
+                hash ^= (hash >> 13) & ((1u64 << 19) - 1);
+            } else {
+                for &byte in chunk {
+                    hash = hash.rotate_left(5).wrapping_add(byte as u64);
+                }
+            }
         }
         hash
     }
